@@ -195,7 +195,7 @@ pub fn run(ctx: &mut Ctx) {
         }
     }
     ctx.stratum("R-random-parsed-ranges", false);
-    let n = ctx.tier.pick(60_000u64, 6_000_000u64);
+    let n = ctx.tier.n(60_000, 6_000_000);
     for i in 0..n {
         if !ctx.take() {
             continue;
@@ -212,7 +212,7 @@ pub fn run(ctx: &mut Ctx) {
         }
     }
     ctx.stratum("S-results-of-set-operations", false);
-    let n = ctx.tier.pick(20_000u64, 2_000_000u64);
+    let n = ctx.tier.n(20_000, 2_000_000);
     for i in 0..n {
         if !ctx.take() {
             continue;
